@@ -732,6 +732,34 @@ fn hook_encoders(_rv: &RespValue) -> Vec<(u8, Vec<u8>)> {
     Vec::new()
 }
 
+/// encoder 5 = `encode_resp_into` / `encode_error_into` of src/bin/server_persistent.rs, compiled from
+/// their source text (harness/build.rs)
+#[cfg(verif_persist_enc)]
+mod persist_enc {
+    #![allow(dead_code)]
+    use bytes::{BufMut, BytesMut};
+    use redis_sim::redis::{RespCodec, RespValue};
+    include!(concat!(env!("OUT_DIR"), "/persist_enc.rs"));
+    pub fn enc(v: &RespValue) -> Vec<u8> {
+        let mut b = BytesMut::new();
+        encode_resp_into(v, &mut b);
+        b.to_vec()
+    }
+    pub fn err(m: &str) -> Vec<u8> {
+        let mut b = BytesMut::new();
+        encode_error_into(m, &mut b);
+        b.to_vec()
+    }
+}
+#[cfg(verif_persist_enc)]
+fn persist_encoders(rv: &RespValue) -> Vec<(u8, Vec<u8>)> {
+    vec![(5, persist_enc::enc(rv))]
+}
+#[cfg(not(verif_persist_enc))]
+fn persist_encoders(_rv: &RespValue) -> Vec<(u8, Vec<u8>)> {
+    Vec::new()
+}
+
 fn kind_name(v: &V) -> &'static str {
     match v {
         V::S(_) => "simple",
@@ -751,7 +779,7 @@ fn roundtrips(k: u8, v: &V) -> bool {
     let bytes = match (k, v.to_rv()) {
         (1, _) => RespCodec::encode(&v.to_zc()).to_vec(),
         (2, Some(rv)) => RespParser::encode(&rv),
-        (_, Some(rv)) => match hook_encoders(&rv).into_iter().find(|e| e.0 == k) {
+        (_, Some(rv)) => match hook_encoders(&rv).into_iter().chain(persist_encoders(&rv)).find(|e| e.0 == k) {
             Some(e) => e.1,
             None => return true,
         },
@@ -782,6 +810,7 @@ fn check_roundtrip(cx: &mut Ctx, v: &V, src: &str) {
     if let Some(rv) = v.to_rv() {
         encs.push((2, RespParser::encode(&rv)));
         encs.extend(hook_encoders(&rv));
+        encs.extend(persist_encoders(&rv));
     }
     cx.out.count(&format!("roundtrip:{}:depth={}", src, v.depth().min(4)));
     for (k, bytes) in encs {
@@ -808,6 +837,8 @@ fn check_roundtrip(cx: &mut Ctx, v: &V, src: &str) {
                     format!("C15:roundtrip:conn-encoder:{}", failing_shape(k, v))
                 } else if k == 4 {
                     format!("C15:roundtrip:sim-encoder:{}", failing_shape(k, v))
+                } else if k == 5 {
+                    format!("C15:roundtrip:persistent-server-encoder:{}", failing_shape(k, v))
                 } else {
                     let class = if v.lines_have(&|b| find(b, b"\r\n")) {
                         "crlf-in-line"
@@ -847,6 +878,251 @@ fn error_encoder(cx: &mut Ctx) {
 #[cfg(not(verif_h1c))]
 fn error_encoder(cx: &mut Ctx) {
     cx.out.count("hook-h1c-absent");
+    cx.out.violation("C15:coverage:hook-h1c-absent", "the harness was built without hook H1c (verif_hooks::encode_reply / encode_error_reply, SimulatedConnection::verif_encode_resp): the connection handler's private encoder, its error encoder and the simulated connection's encoder are not driven on arbitrary values",
+        json!({"looked_for": "pub fn encode_reply in <redis-sim>/src/production/mod.rs (harness/build.rs)"}));
+}
+
+/// `encode_error_into` of server_persistent.rs (always `-ERR ` in front)
+#[cfg(verif_persist_enc)]
+fn error_encoder5(cx: &mut Ctx) {
+    for m in ["protocol error: Unknown RESP type: ?", "wrong number of arguments for 'get' command", "ERR already prefixed", "", "a\r\n+b", "line\nfeed\rcr é"] {
+        let bytes = persist_enc::err(m);
+        cx.out.op(format!("EE5 {}", hex(m.as_bytes())), hex(&bytes));
+        cx.out.case(&format!("EE5|{}", m), true);
+        for codec in [1u8, 2u8] {
+            if let Some(o) = check_decode(cx, codec, &bytes, "encoded-error5") {
+                if !(o.kind == Kind::Ok && o.consumed == bytes.len() && matches!(o.val, Some(V::E(_)))) {
+                    cx.out.violation("C15:roundtrip:persistent-server-encoder:error-reply", "encode_error_into of server_persistent.rs does not write exactly one error frame", json!({"message": m, "encoded": hex(&bytes), "decoded": o.line()}));
+                }
+            }
+        }
+    }
+}
+#[cfg(not(verif_persist_enc))]
+fn error_encoder5(cx: &mut Ctx) {
+    cx.out.violation("C15:coverage:persistent-server-encoder-not-extracted", "harness/build.rs did not find `fn encode_resp_into` … `fn encode_error_into` in src/bin/server_persistent.rs: the binary's copy of the reply encoder is not driven", json!({"file": "src/bin/server_persistent.rs"}));
+}
+
+/// encoder 6, the CLIENT side: `SimulatedReadBuffer::encode_command` (private) through the public
+/// queue_command / flush_to_buffer / read.  Every Command it knows must come out as the frame of its
+/// arguments (model: CE) and decode back to the same command; the rest is documented to be sent as PING.
+fn command_encoder(cx: &mut Ctx) {
+    use redis_sim::redis::{Command, SDS};
+    use redis_sim::simulator::connection::SimulatedReadBuffer;
+    let vals: [&[u8]; 5] = [b"v", b"", b"with\r\ncrlf", b"\x00\xff$*", b"0123456789012345678901234567890123456789"];
+    let keys: [&str; 5] = ["k", "", "key with space", "k\r\n", "ké✓"];
+    let mut cases: Vec<(Command, Vec<Vec<u8>>)> = vec![(Command::Ping(None), vec![b"PING".to_vec()])];
+    for v in vals {
+        cases.push((Command::Ping(Some(SDS::new(v.to_vec()))), vec![b"PING".to_vec(), v.to_vec()]));
+        for k in keys {
+            cases.push((Command::set(k.to_string(), SDS::new(v.to_vec())), vec![b"SET".to_vec(), k.as_bytes().to_vec(), v.to_vec()]));
+        }
+    }
+    for k in keys {
+        cases.push((Command::Get(k.to_string()), vec![b"GET".to_vec(), k.as_bytes().to_vec()]));
+        cases.push((Command::Incr(k.to_string()), vec![b"INCR".to_vec(), k.as_bytes().to_vec()]));
+        cases.push((Command::Del(vec![k.to_string(), "other".to_string()]), vec![b"DEL".to_vec(), k.as_bytes().to_vec(), b"other".to_vec()]));
+    }
+    cases.push((Command::Del(vec![]), vec![b"DEL".to_vec()]));
+    for (cmd, args) in cases {
+        let mut rb = SimulatedReadBuffer::new(1);
+        rb.queue_command(cmd.clone());
+        rb.flush_to_buffer();
+        let bytes = rb.read().map(|b| b.to_vec()).unwrap_or_default();
+        let op = format!("CE {}", args.iter().map(|a| hex(a)).collect::<Vec<_>>().join(" "));
+        cx.out.op(op.clone(), hex(&bytes));
+        cx.out.case(&op, true);
+        cx.out.count("encoder:6");
+        // the frame decodes (RespCodec, as the simulated connection does) to exactly its arguments
+        let o = decode_here(1, &bytes);
+        let want = V::A(args.iter().map(|a| V::B(a.clone())).collect());
+        if !(o.kind == Kind::Ok && o.consumed == bytes.len() && o.val.as_ref() == Some(&want)) {
+            cx.out.violation("C15:roundtrip:command-encoder", "a command written by SimulatedReadBuffer::encode_command does not decode to the array of its arguments", json!({"command": format!("{:?}", cmd), "encoded": hex(&bytes), "decoded": o.line(), "expected": want.show()}));
+        }
+    }
+    // documented substitution: anything else is sent as PING
+    let mut rb = SimulatedReadBuffer::new(1);
+    rb.queue_command(Command::Exists(vec!["k".into()]));
+    rb.flush_to_buffer();
+    let bytes = rb.read().map(|b| b.to_vec()).unwrap_or_default();
+    cx.out.count(if bytes == b"*1\r\n$4\r\nPING\r\n" { "encoder6:other-commands-sent-as-PING(documented)" } else { "encoder6:other-commands-encoded" });
+}
+
+/// every value of the FIRST byte (RESP3 type bytes, inline commands, control bytes) before several
+/// tails; nesting exactly around MAX_NESTING_DEPTH; bulk payloads around the sizes that matter
+fn sweeps(cx: &mut Ctx) {
+    let tails: [&[u8]; 6] = [b"", b"\r\n", b"1\r\n", b"-1\r\n", b"2\r\nab\r\n", b"PING\r\n"];
+    for t in 0..=255u8 {
+        for tail in tails {
+            let mut s = vec![t];
+            s.extend_from_slice(tail);
+            check_both(cx, &s, "first-byte-sweep");
+        }
+    }
+    // the same inside an array (the element decoder)
+    for t in 0..=255u8 {
+        let mut s = b"*1\r\n".to_vec();
+        s.push(t);
+        s.extend_from_slice(b"1\r\n");
+        check_both(cx, &s, "first-byte-sweep:element");
+    }
+    let maxn = std::env::var("VERIF_C15_MAX_NESTING").ok().and_then(|v| v.parse::<usize>().ok()).unwrap_or(32);
+    for d in [maxn.saturating_sub(2), maxn - 1, maxn, maxn + 1, maxn + 2, 2 * maxn] {
+        let full = nested(d);
+        check_both(cx, &full, "nesting-at-limit");
+        for cutoff in [1usize, 3, 4, 5] {
+            if full.len() > cutoff {
+                check_both(cx, &full[..full.len() - cutoff], "nesting-at-limit:truncated");
+            }
+        }
+        // null arrays and empty arrays at the limit: the depth test comes before the length is read
+        let mut z = Vec::new();
+        for _ in 0..d {
+            z.extend_from_slice(b"*1\r\n");
+        }
+        let mut z1 = z.clone();
+        z1.extend_from_slice(b"*-1\r\n");
+        check_both(cx, &z1, "nesting-at-limit:null-array");
+        let mut z2 = z.clone();
+        z2.extend_from_slice(b"*0\r\n");
+        check_both(cx, &z2, "nesting-at-limit:empty-array");
+    }
+    // bulk payload sizes: around the encoder's initial 256-byte buffer, u16, the harness' 1 MiB threshold
+    for n in [255usize, 256, 257, 65535, 65536, (1 << 20) - 1, 1 << 20] {
+        let v = V::B(vec![b'x'; n]);
+        if n <= 65536 {
+            check_roundtrip(cx, &v, "bulk-sizes");
+            check_roundtrip(cx, &V::A(vec![V::I(1), v.clone(), V::N]), "bulk-sizes");
+        } else {
+            let bytes = encode_any(&v);
+            check_both(cx, &bytes, "bulk-sizes");
+            check_both(cx, &bytes[..bytes.len() - 1], "bulk-sizes:truncated");
+        }
+    }
+    // wide arrays (element vector growth; the pre-allocation clamp at 3 bytes per element)
+    for n in [85usize, 86, 1000, 16_000] {
+        let mut s = format!("*{}\r\n", n).into_bytes();
+        for _ in 0..n {
+            s.extend_from_slice(b"+\r\n");
+        }
+        check_both(cx, &s, "wide-array");
+        check_both(cx, &s[..s.len() - 3], "wide-array:one-element-short");
+        check_both(cx, &s[..s.len() - 1], "wide-array:one-byte-short");
+    }
+    // RespCodec only: a pre-allocation above the 1 MiB observation threshold, clamped by the input
+    // (RespParser's element vector grows by doubling: its amortised requests are not modelled)
+    {
+        let n = 30_000usize;
+        let mut s = format!("*{}\r\n", n).into_bytes();
+        for _ in 0..n {
+            s.extend_from_slice(b"+\r\n");
+        }
+        check_decode(cx, 1, &s, "wide-array:prealloc-above-1MiB");
+        check_decode(cx, 1, &s[..s.len() - 3], "wide-array:prealloc-above-1MiB");
+    }
+}
+
+/// every RESP encoder / decoder of the tree, by scanning the SOURCE the binary was built against:
+/// a function that looks like a RESP codec and is not accounted for here is a coverage violation
+fn codec_enumeration(cx: &mut Ctx) {
+    fn repo_dir() -> String {
+        const MANIFEST: &str = include_str!("../Cargo.toml");
+        for line in MANIFEST.lines() {
+            if line.trim_start().starts_with("redis-sim") {
+                if let Some(i) = line.find("path = \"") {
+                    let rest = &line[i + 8..];
+                    if let Some(j) = rest.find('"') {
+                        return rest[..j].to_string();
+                    }
+                }
+            }
+        }
+        "/repo".to_string()
+    }
+    fn account(file: &str, f: &str) -> Option<&'static str> {
+        Some(match (file, f) {
+            ("src/redis/resp_optimized.rs", "parse") | ("src/redis/resp_optimized.rs", "try_parse") | ("src/redis/resp_optimized.rs", "try_parse_nested") | ("src/redis/resp_optimized.rs", "parse_simple_string")
+            | ("src/redis/resp_optimized.rs", "parse_error") | ("src/redis/resp_optimized.rs", "parse_integer") | ("src/redis/resp_optimized.rs", "parse_bulk_string") | ("src/redis/resp_optimized.rs", "parse_array")
+            | ("src/redis/resp_optimized.rs", "find_crlf") => "decoder 1 (codec1): D1 / F1 ops",
+            ("src/redis/resp_optimized.rs", "encode") | ("src/redis/resp_optimized.rs", "encode_into") | ("src/redis/resp_optimized.rs", "put_line") => "encoder 1: E1 ops (put_line: the line sanitiser shared by encoders 1, 3, 4, 5)",
+            ("src/redis/resp.rs", "parse") | ("src/redis/resp.rs", "parse_nested") | ("src/redis/resp.rs", "parse_simple_string") | ("src/redis/resp.rs", "parse_error") | ("src/redis/resp.rs", "parse_integer")
+            | ("src/redis/resp.rs", "parse_bulk_string") | ("src/redis/resp.rs", "parse_array") | ("src/redis/resp.rs", "find_crlf") => "decoder 2 (codec2): D2 / F2 ops",
+            ("src/redis/resp.rs", "encode") | ("src/redis/resp.rs", "encode_line") => "encoder 2: E2 ops",
+            ("src/production/connection_optimized.rs", "encode_resp_into") | ("src/production/connection_optimized.rs", "encode_error_into") => "encoder 3 + error encoder: E3 / EE ops (hook H1c) and byte-exact end to end (C04 W ops)",
+            ("src/simulator/connection.rs", "encode_resp") => "encoder 4: E4 ops (hook H1c)",
+            ("src/simulator/connection.rs", "encode_command") => "encoder 6 (client side): CE ops through the public SimulatedReadBuffer API",
+            ("src/bin/server_persistent.rs", "encode_resp_into") | ("src/bin/server_persistent.rs", "encode_error_into") => "encoder 5 + its error encoder: E5 / EE5 ops on the source text compiled into the harness (build.rs)",
+            ("src/main.rs", "encode_command") => "NOT driven: the CLI client of the bin target main.rs (a command line split on blanks written as an array of bulk strings: the shape of encoder 6, theorem command_frame_decodes)",
+            ("src/bin/shadow_proxy.rs", "parse_resp_command") => "NOT driven: bin target shadow_proxy (extracts the command NAME of a frame for logging / routing of the proxy, no replies are built from it)",
+            ("src/redis/server.rs", "encode_with_request_id") | ("src/redis/server.rs", "decode_request_id") => "not RESP: 8-byte request-id envelope of the simulated server around RespParser::parse / encode (decoder 2 / encoder 2)",
+            _ => return None,
+        })
+    }
+    let root = repo_dir();
+    let mut table = serde_json::Map::new();
+    let mut files: Vec<String> = Vec::new();
+    fn walk(dir: &std::path::Path, out: &mut Vec<String>) {
+        if let Ok(rd) = std::fs::read_dir(dir) {
+            for e in rd.flatten() {
+                let p = e.path();
+                if p.is_dir() {
+                    walk(&p, out);
+                } else if p.extension().map(|x| x == "rs").unwrap_or(false) {
+                    out.push(p.to_string_lossy().to_string());
+                }
+            }
+        }
+    }
+    walk(std::path::Path::new(&format!("{}/src", root)), &mut files);
+    files.sort();
+    if files.len() < 50 {
+        cx.out.violation("C15:coverage:source-scan-failed", "the scan of the source tree found fewer than 50 files", json!({"root": root, "files": files.len()}));
+    }
+    let mut found = 0;
+    for f in &files {
+        let rel = f.strip_prefix(&format!("{}/", root)).unwrap_or(f).to_string();
+        if rel.contains("/tests/") || rel.ends_with("_test.rs") || rel.ends_with("_tests.rs") {
+            continue;
+        }
+        let src = std::fs::read_to_string(f).unwrap_or_default();
+        // a RESP codec writes / searches CR LF framing of typed values: the null markers, or a CRLF search
+        let looks_resp = src.contains("$-1\\r\\n") || src.contains("*-1\\r\\n") || src.contains("fn find_crlf") || src.contains("fn parse_resp") || src.contains("*1\\r\\n$4\\r\\nPING");
+        if !looks_resp {
+            continue;
+        }
+        for line in src.lines() {
+            let t = line.trim_start();
+            for pre in ["pub async fn ", "async fn ", "pub fn ", "fn ", "pub(crate) fn "] {
+                if let Some(r) = t.strip_prefix(pre) {
+                    let name: String = r.chars().take_while(|c| c.is_alphanumeric() || *c == '_').collect();
+                    let codec_like = name.starts_with("encode") || name.starts_with("decode") || name.starts_with("parse") || name == "find_crlf" || name == "put_line" || name == "try_parse" || name == "try_parse_nested";
+                    if codec_like {
+                        found += 1;
+                        match account(&rel, &name) {
+                            Some(a) => {
+                                table.insert(format!("{}::{}", rel, name), json!(a));
+                            }
+                            None => {
+                                // helpers that are no RESP codecs, in files that contain one: listed one by one
+                                let benign = matches!((rel.as_str(), name.as_str()), ("src/bin/server_persistent.rs", "parse_replica_id_from_env") | ("src/production/connection_optimized.rs", "parse_usize_fast"));
+                                if benign {
+                                    table.insert(format!("{}::{}", rel, name), json!("not a RESP codec (environment / length-field helper; parse_usize_fast is part of the C04 recognisers)"));
+                                } else {
+                                    table.insert(format!("{}::{}", rel, name), json!("UNACCOUNTED"));
+                                    cx.out.violation(&format!("C15:coverage:resp-codec-not-accounted:{}::{}", rel, name), "a function of the source tree looks like a RESP encoder / decoder and is neither in the model's table nor listed with the reason why not (harness/src/c15.rs codec_enumeration)", json!({"file": rel, "fn": name}));
+                                }
+                            }
+                        }
+                    }
+                    break;
+                }
+            }
+        }
+    }
+    if found < 20 {
+        cx.out.violation("C15:coverage:source-scan-failed", "the scan of the source tree found fewer than 20 codec functions", json!({"root": root, "found": found}));
+    }
+    cx.out.extra.insert("resp_codecs(derived from the source tree at run time)".into(), serde_json::Value::Object(table));
 }
 
 // ---------------------------------------------------------------- generators
@@ -1246,6 +1522,29 @@ fn encoder3(cx: &mut Ctx) {
     }
 }
 
+/// the coverage audit of C15 against the eleven classes of missed inputs (also DESIGN §4 C15 "coverage audit")
+fn audit() -> serde_json::Value {
+    json!([
+      {"class": 1, "topic": "entry paths / variants never driven",
+       "covered": "both decoders (every per-type parser, find_crlf), encoders 1-6, both error encoders, put_line; encoder 5 = the bin server_persistent.rs's copy, its SOURCE TEXT compiled into the harness by build.rs; encoder 6 = SimulatedReadBuffer::encode_command through its public API; every function of the source tree that looks like a RESP codec is enumerated at run time and accounted for (C15:coverage:resp-codec-not-accounted); hook H1c detection restored in build.rs (its loss had left encoders 3 / 4 silently undriven: now C15:coverage:hook-h1c-absent)",
+       "open": "bin-only main.rs::encode_command and shadow_proxy.rs::parse_resp_command"},
+      {"class": 2, "topic": "input alphabet",
+       "covered": "exhaustive strings over the grammar alphabet; all 256 values of the first byte (top level and as array element) before six tails; CR / LF patterns; non-UTF-8 lines; integers at the i64 / usize limits",
+       "open": ""},
+      {"class": 3, "topic": "comparisons at equality",
+       "covered": "nesting at limit-2 .. limit+2 and 2*limit (complete, truncated, null / empty arrays below the limit); bulk trailer missing by 0 / 1 / 2 bytes (all cuts); array pre-allocation clamp at 3 bytes per element (85 / 86 / 1000 / 16000 / 30000 elements, one element short, one byte short)",
+       "open": "the clamp's exact request is observed only above the allocator log threshold (1 MiB)"},
+      {"class": 4, "topic": "configuration", "covered": "no configuration is read; MAX_NESTING_DEPTH is read from resp.rs by ./check and compared with the value the theorems assume", "open": "feature opt-itoa-encode off"},
+      {"class": 5, "topic": "capacity thresholds", "covered": "encoder buffer 256, 64 KiB, the 1 MiB observation threshold (bulk 2^20-1 / 2^20), allocator cap 1 GiB (child), 2 MiB / 256 KiB stacks", "open": "RespParser's amortised vector growth is not modelled (stated assumption)"},
+      {"class": 6, "topic": "fault kinds", "covered": "panic, allocation refusal (child process), stack overflow (child process)", "open": ""},
+      {"class": 7, "topic": "history shapes", "covered": "one buffer across many frames and chunks, dead after an error, every 1- and 2-cut fragmentation of short streams", "open": ""},
+      {"class": 8, "topic": "node-global state", "covered": "none exists", "open": ""},
+      {"class": 9, "topic": "observations", "covered": "value, consumed, error class, big allocation requests, exact encoder bytes, frames / rest / liveness of the buffer loop", "open": "exact decoder error texts (the connection discards them)"},
+      {"class": 10, "topic": "finding signatures", "covered": "no listed finding (all repaired)", "open": ""},
+      {"class": 11, "topic": "harness fragility", "covered": "absence of hook H1c or of the extracted bin encoder is a violation; a failed source scan is a violation; skipped:child-budget is counted (corpus cases run first)", "open": ""}
+    ])
+}
+
 fn run_inner(a: &Args) {
     install_silent_panic_hook();
     let quick = a.tier != "thorough";
@@ -1260,6 +1559,14 @@ fn run_inner(a: &Args) {
 
     encoder3(&mut cx);
     error_encoder(&mut cx);
+    error_encoder5(&mut cx);
+    command_encoder(&mut cx);
+    sweeps(&mut cx);
+    codec_enumeration(&mut cx);
+    // the static reply constructors of RespValue
+    for rv in [RespValue::ok(), RespValue::pong(), RespValue::queued(), RespValue::nil(), RespValue::simple_string("dyn\r\nx".to_string()), RespValue::empty_array(), RespValue::err("ERR e"), RespValue::simple("s")] {
+        check_roundtrip(&mut cx, &V::from_rv(&rv), "static-constructors");
+    }
     // round trips of all small values
     for v in all_small_values() {
         check_roundtrip(&mut cx, &v, "all-small");
@@ -1355,6 +1662,14 @@ fn run_inner(a: &Args) {
             }
         }
     }
+    cx.out.extra.insert("audit".into(), audit());
+    cx.out.extra.insert("mutations_self_tested".into(), json!([
+      {"mutation": "server_persistent.rs encode_resp_into writes Array(None) as $-1", "class": "1 entry paths (encoder 5)", "before": "missed (exit 0): the binary's encoder was not driven", "after": "C15:roundtrip:persistent-server-encoder:null-array (+ in-array shapes), 223 ops"},
+      {"mutation": "RespCodec accepts the RESP3 null `_\\r\\n`", "class": "2 input alphabet (first byte)", "before": "caught by ONE random input", "after": "caught systematically: first-byte sweep, C15:decoders-disagree:ok-vs-err-unknown-type, C15:prefix-unstable:error:codec1"},
+      {"mutation": "MAX_NESTING_DEPTH = 33", "class": "4 configuration / 5 thresholds", "before": "model disagreement on 4 random nested inputs", "after": "proof-obligation-broken: the theorems are about 32, the source has 33 (+ 18 ops of the nesting-at-limit corpus); no property-level failing input: the bound still holds"},
+      {"mutation": "SimulatedReadBuffer::encode_command writes the CHARACTER count of a GET key as its length", "class": "1 entry paths (encoder 6) / 2 alphabet (non-ASCII key)", "before": "missed (exit 0)", "after": "C15:roundtrip:command-encoder on GET \"ké✓\""},
+      {"mutation": "server_persistent.rs encode_error_into copies the message verbatim (no put_line)", "class": "1 entry paths (error encoder 5)", "before": "missed (exit 0)", "after": "C15:roundtrip:persistent-server-encoder:error-reply on a message with CR LF"}
+    ]));
     cx.out.finish("case = one decoder call D<codec>(bytes) | one fragmented feed F<codec>(stream, cuts) | one encoder call E<k>(value) | one nested-array decode N<codec>(depth, stack); distinct by canonical text; a decode is non-trivial iff the input has at least 3 bytes and starts with a RESP type byte, a feed iff it has at least one cut and yields at least one frame");
 }
 
